@@ -142,6 +142,15 @@ theorem C11_lookup : C11_lookup_full := by
       · have := StrictlyIncreasing.head_lt hinc e he
         simp only at this; omega
 
+-- non-vacuity: a table and a value list that meet the hypotheses of C11_lookup, with duplicates,
+-- absent values between, before and after the table values; the instance below is the theorem's
+-- conclusion on them for sampling 2 (early i++ to the last sampled entry included)
+example : StrictlyIncreasing [(1, 100), (2, 200), (4, 300), (6, 400), (8, 500)] ∧ Sorted [0, 1, 2, 2, 6, 8, 9] := by
+  simp [StrictlyIncreasing, Sorted]
+example : lookup (sample 4 [(1, 100), (2, 200), (4, 300), (6, 400), (8, 500)])
+    [(1, 100), (2, 200), (4, 300), (6, 400), (8, 500)] 996 [0, 5, 6, 8, 8, 9] =
+    .ok [notFound, notFound, ⟨404, 496⟩, ⟨504, 996⟩, ⟨504, 996⟩, notFound] := by rfl
+
 -- small-scope instances (tests, not the claim)
 example : lookup (sample 2 [(0, 100), (2, 200), (4, 300), (6, 400), (8, 500)])
     [(0, 100), (2, 200), (4, 300), (6, 400), (8, 500)] 996 [0, 1, 2, 2, 6, 8, 9] =
